@@ -1,6 +1,7 @@
 package c12
 
 import (
+	"errors"
 	"fmt"
 	"sort"
 	"strings"
@@ -465,10 +466,12 @@ func (c recorder) SampleKind(k string, n int, v any) {
 // coming from the KDC (root cause KDC_Error) whose text names the code. An error of another class that merely quotes the
 // KRB-ERROR in a list of failed attempts is not the KDC's error surfaced.
 func carries(err error, code int32) bool {
-	if ke, ok := err.(messages.KRBError); ok {
-		return ke.ErrorCode == code
+	var kerr messages.KRBError
+	if errors.As(err, &kerr) {
+		return kerr.ErrorCode == code // the KRBError itself, however it is wrapped
 	}
-	if ke, ok := err.(krberror.Krberror); ok && ke.RootCause != krberror.KDCError {
+	var cerr krberror.Krberror
+	if errors.As(err, &cerr) && cerr.RootCause != krberror.KDCError {
 		return false
 	}
 	return strings.Contains(err.Error(), fmt.Sprintf("(%d) ", code))
